@@ -102,7 +102,11 @@ pub fn run(ctx: &mut Ctx, prop: &str) {
                     "!==" => !refmodel::strict_eq(a, b),
                     r => refmodel::relational(r, a, b),
                 };
-                ctx.judge_helper(&format!("{}:helper", k), json!({"helper": k, "a": a, "b": b}), &oh, Some(&Value::Bool(want)));
+                // the properties speak about the operators; the public helper is called for totality and its
+                // verdict is only reported when it also disagrees with the operator built on it
+                let helper_wrong = bool_of(&oh) != Some(want) && bool_of(&oh) != bool_of(&o1);
+                let wanted = Value::Bool(want);
+                ctx.judge_helper(&format!("{}:helper", k), json!({"helper": k, "a": a, "b": b}), &oh, if helper_wrong { Some(&wanted) } else { None });
             }
             // laws on this pair (oracle-free)
             match prop {
